@@ -46,6 +46,8 @@ struct MxState {
 	std::string plugOut{"-"};
 	long plugSignal{0};
 	long plugSleep{0};
+	std::string plugTerm;
+	long plugGchild{0};
 	long timeout{30};
 	bool built{false};
 	bool withSvc{false};
@@ -124,7 +126,7 @@ void Reset()
 	if (l_S.host) RemoveObject(l_S.host);
 	if (l_S.command) RemoveObject(l_S.command);
 	for (auto& n : l_S.envnames) unsetenv(n.c_str());
-	if (!l_S.argvFile.empty()) unlink(l_S.argvFile.c_str());
+	if (!l_S.argvFile.empty()) { unlink(l_S.argvFile.c_str()); unlink((l_S.argvFile + ".gc").c_str()); }
 	l_S = MxState();
 }
 
@@ -182,6 +184,8 @@ void Build(bool withSvc)
 	  << (l_S.plugOut == "-" ? "" : l_S.plugOut) << "\"";
 	if (l_S.plugSignal) c << ", RECPLUG_SIGNAL = \"" << l_S.plugSignal << "\"";
 	if (l_S.plugSleep) c << ", RECPLUG_SLEEP = \"" << l_S.plugSleep << "\"";
+	if (!l_S.plugTerm.empty()) c << ", RECPLUG_TERM = \"" << l_S.plugTerm << "\"";
+	if (l_S.plugGchild) c << ", RECPLUG_GCHILD = \"" << l_S.plugGchild << "\"";
 	c << " }\n  timeout = " << l_S.timeout << "\n";
 	c << "  vars = " << DictDsl(l_S.vars["cmd"]) << "\n}\n";
 	c << "object Host \"" << hn << "\" {\n  check_command = \"" << cn << "\"\n  enable_active_checks = false\n  max_check_attempts = 1\n";
@@ -229,6 +233,23 @@ bool ReadArgvFile(const std::string& path, std::vector<String>& out)
 	return true;
 }
 
+// has the grandchild recorded in <file> disappeared (no such process, or a zombie waiting to be reaped)?
+bool GrandchildGone(const std::string& path)
+{
+	std::ifstream f(path);
+	long pid = 0;
+	if (!(f >> pid) || pid <= 0) return true;           // never started
+	for (int i = 0; i < 200; i++) {
+		std::ifstream st("/proc/" + std::to_string(pid) + "/stat");
+		std::string line;
+		if (!st || !std::getline(st, line)) return true;
+		auto rp = line.rfind(')');
+		if (rp != std::string::npos && rp + 2 < line.size() && line[rp + 2] == 'Z') return true;
+		usleep(10000);
+	}
+	return false;
+}
+
 } // namespace
 
 VOP(mx_new) { Reset(); }
@@ -273,6 +294,8 @@ VOP(mx_plug)
 	l_S.plugOut = a.str("out", "-");
 	l_S.plugSignal = a.num("sig", 0);
 	l_S.plugSleep = a.num("sleep", 0);
+	l_S.plugTerm = a.str("term", "");
+	l_S.plugGchild = a.num("gchild", 0);
 	l_S.timeout = a.num("timeout", 30);
 }
 
@@ -332,7 +355,14 @@ VOP(mx_exec)
 	o << " state=" << (long)cr->GetState() << " exit=" << (long)cr->GetExitStatus();
 	Value cmdline = cr->GetCommand();
 	bool failedToResolve = cmdline.IsEmpty() && !have;
-	if (!failedToResolve && !l_S.plugSignal && !l_S.plugSleep) {
+	bool timeoutScenario = l_S.plugSleep || l_S.plugGchild;
+	if (timeoutScenario) {
+		// "a plugin exceeding its timeout is killed and reported as UNKNOWN": state/exit above, the marker in the
+		// stored output, and nothing of the plugin's session left behind
+		o << " tmo=" << (cr->GetOutput().Contains("<Timeout exceeded.>") ? 1 : 0);
+		if (l_S.plugGchild) o << " gc=" << (GrandchildGone(l_S.argvFile + ".gc") ? "dead" : "alive");
+	}
+	if (!failedToResolve && !l_S.plugSignal && !timeoutScenario) {
 		std::vector<String> pd;
 		Array::Ptr parr = cr->GetPerformanceData();
 		if (parr) { ObjectLock olock(parr); for (const Value& v : parr) pd.emplace_back(v); }
